@@ -11,6 +11,7 @@ import json
 import os
 import re
 import shutil
+import signal
 import subprocess
 import sys
 import time
@@ -70,12 +71,22 @@ class Lock:
 
 def run(cmd, cwd=None, timeout=None, env=None, stdin=None):
     t0 = time.time()
+    # own process group: on timeout the whole tree (make -> sh -> coqc, go -> compile, ...) is killed,
+    # not only the direct child
+    p = subprocess.Popen(cmd, cwd=cwd, env=env, stdin=stdin, stdout=subprocess.PIPE, stderr=subprocess.STDOUT,
+                         text=True, errors="replace", start_new_session=True)
     try:
-        p = subprocess.run(cmd, cwd=cwd, timeout=timeout, env=env, stdin=stdin,
-                           stdout=subprocess.PIPE, stderr=subprocess.STDOUT, text=True, errors="replace")
-        return p.returncode, p.stdout, time.time() - t0
-    except subprocess.TimeoutExpired as e:
-        out = e.stdout if isinstance(e.stdout, str) else (e.stdout or b"").decode("utf8", "replace")
+        out, _ = p.communicate(timeout=timeout)
+        return p.returncode, out, time.time() - t0
+    except subprocess.TimeoutExpired:
+        try:
+            os.killpg(p.pid, signal.SIGKILL)
+        except OSError:
+            pass
+        try:
+            out, _ = p.communicate(timeout=30)
+        except Exception:
+            out = ""
         return 124, (out or "") + "\n[timeout after %ss]" % timeout, time.time() - t0
 
 
